@@ -88,3 +88,10 @@ func zzIntStrPtr(p int32) *intstr.IntOrString {
 	ip := intstr.FromInt32(p)
 	return &ip
 }
+
+// zzPodObjRef: a bare pod with an ownerReference whose controller flag is given (nil = omitted)
+func zzPodObjRef(ns, name string, labels map[string]string, ownerKind, owner string, controller *bool) parser.K8sObject {
+	o := zzPodObj(ns, name, labels, nil, "")
+	o.Pod.OwnerReferences = []metav1.OwnerReference{{APIVersion: "v1", Kind: ownerKind, Name: owner, Controller: controller}}
+	return o
+}
